@@ -78,4 +78,100 @@ theorem decodeRune_lt (s : List UInt8) : (decodeRune s).1 < 0x7fffffff := by
     repeat' split
     all_goals first | (simp only [runeError]; omega) | omega
 
+/-! ## encoding of characters -/
+
+/-- UTF-8 of one character -/
+def encChar (c : Char) : List UInt8 := encodeRune c.toNat
+
+theorem char_valid (c : Char) : validRune c.toNat = true := by
+  have h := c.valid
+  unfold validRune maxRune
+  have : c.toNat = c.val.toNat := rfl
+  rw [this]
+  rcases h with h | ⟨h1, h2⟩
+  · simp only [Bool.or_eq_true, decide_eq_true_eq, Bool.and_eq_true]; left; omega
+  · simp only [Bool.or_eq_true, decide_eq_true_eq, Bool.and_eq_true]; right; omega
+
+theorem encChar_eq (c : Char) : encChar c =
+    if c.toNat ≤ 127 then [UInt8.ofNat c.toNat]
+    else if c.toNat ≤ 2047 then [UInt8.ofNat (c.toNat / 64 % 32 + 192), UInt8.ofNat (c.toNat % 64 + 128)]
+    else if c.toNat ≤ 65535 then
+      [UInt8.ofNat (c.toNat / 4096 % 16 + 224), UInt8.ofNat (c.toNat / 64 % 64 + 128),
+       UInt8.ofNat (c.toNat % 64 + 128)]
+    else
+      [UInt8.ofNat (c.toNat / 262144 % 8 + 240), UInt8.ofNat (c.toNat / 4096 % 64 + 128),
+       UInt8.ofNat (c.toNat / 64 % 64 + 128), UInt8.ofNat (c.toNat % 64 + 128)] := by
+  unfold encChar encodeRune
+  simp only [char_valid c, if_true]
+
+/-- the model's encoder is core Lean's -/
+theorem encChar_eq_core (c : Char) : encChar c = String.utf8EncodeChar c := by
+  rw [encChar_eq]; rfl
+
+theorem encChar_ne_nil (c : Char) : encChar c ≠ [] := by
+  rw [encChar_eq]; repeat' split
+  all_goals simp
+
+theorem encChar_length_pos (c : Char) : 1 ≤ (encChar c).length := by
+  rw [encChar_eq]; repeat' split
+  all_goals simp
+
+theorem encodeChars_nil : encodeChars [] = [] := rfl
+
+theorem encodeChars_cons (c : Char) (cs : List Char) : encodeChars (c :: cs) = encChar c ++ encodeChars cs := by
+  simp [encodeChars, encChar]
+
+theorem encodeChars_append (a b : List Char) : encodeChars (a ++ b) = encodeChars a ++ encodeChars b := by
+  simp [encodeChars]
+
+theorem encodeChars_eq_nil (cs : List Char) (h : encodeChars cs = []) : cs = [] := by
+  cases cs with
+  | nil => rfl
+  | cons c r =>
+    rw [encodeChars_cons] at h
+    have := encChar_ne_nil c
+    simp at h
+    exact absurd h.1 this
+
+/-- an ASCII character is its own single byte -/
+theorem encChar_ascii (c : Char) (h : c.toNat ≤ 127) : encChar c = [UInt8.ofNat c.toNat] := by
+  rw [encChar_eq, if_pos h]
+
+/-- a single byte below 0x80 can only be the encoding of that ASCII character -/
+theorem encChar_eq_single (c : Char) (b : UInt8) (hb : b.toNat < 128) (h : encChar c = [b]) :
+    c.toNat = b.toNat := by
+  rw [encChar_eq] at h
+  split at h
+  · rename_i hc
+    simp only [List.cons.injEq, and_true] at h
+    rw [← h]
+    simp only [UInt8.toNat_ofNat']
+    omega
+  · split at h
+    · simp at h
+    · split at h <;> simp at h
+
+theorem encodeChars_eq_single (cs : List Char) (c : Char) (hc : c.toNat ≤ 127)
+    (h : encodeChars cs = [UInt8.ofNat c.toNat]) : cs = [c] := by
+  cases cs with
+  | nil => simp [encodeChars] at h
+  | cons d r =>
+    rw [encodeChars_cons] at h
+    have hd := encChar_length_pos d
+    have hlen := congrArg List.length h
+    simp only [List.length_append, List.length_cons, List.length_nil] at hlen
+    have hr : (encodeChars r).length = 0 := by omega
+    have hr' : encodeChars r = [] := List.eq_nil_of_length_eq_zero hr
+    have := encodeChars_eq_nil r hr'
+    subst this
+    rw [hr', List.append_nil] at h
+    have h2 := encChar_eq_single d (UInt8.ofNat c.toNat) (by simp only [UInt8.toNat_ofNat']; omega) h
+    simp only [UInt8.toNat_ofNat'] at h2
+    have : d.toNat = c.toNat := by omega
+    have : d = c := by
+      apply Char.ext
+      apply UInt32.toNat_inj.mp
+      exact this
+    rw [this]
+
 end Goyang.Lemmas.Utf8
